@@ -409,6 +409,21 @@ def gen_gate_goaway(ctx, thorough):
                 c2["gate"] = gate
                 steps = [call(1), c2, dict(ev), {"op": "ungate"}, resp(1, es=True), call(3)]
                 out.append({'tag': 'gate-goaway', 'cfg': {}, 'steps': steps})
+    # the same gates against everything else that can happen to the request itself while writeRequest is half done: its
+    # caller gives up, the server answers or resets it early, the body's window moves
+    for gate in ('wr.afterid', 'wr.beforepending', 'wr.afterheaders'):
+        for body, kind in ((0, 'buf'), (3000, 'buf'), (70000, 'stream')):
+            if gate == 'wr.beforepending' and not body:
+                continue
+            evs = [[{"op": "cancel", "req": 2}]]
+            if gate == 'wr.afterheaders':
+                evs += [[resp(2, es=True)], [resp(2, es=False), data(2, 10, es=True)], [{"op": "rst", "req": 2, "code": 8}], [{"op": "rst", "req": 2, "code": 7}],
+                        [resp(2, status=100, es=False), resp(2, es=True)], [resp(2, es=True), {"op": "cancel", "req": 2}]]
+            for ev in evs:
+                c2 = call(2, n=body, kind=kind)
+                c2["gate"] = gate
+                steps = [call(1), c2] + [dict(e) for e in ev] + [{"op": "ungate"}, {"op": "wu", "req": 0, "inc": 200000}, resp(1, es=True), call(3), resp(3, es=True)]
+                out.append({'tag': 'gate-own', 'cfg': {}, 'steps': steps})
     # the other side of the handshake: the READ loop is parked between raising the flag and sweeping the table while the
     # write loop takes a new request through all of writeRequest
     for body, kind in ((0, 'buf'), (3000, 'buf'), (3000, 'stream')):
